@@ -93,7 +93,7 @@ PROPERTIES = {
         'technique': TECH,
     },
     'C06': {
-        'units': [ef.PadBunchProfiles, ef.WakePotential],
+        'units': [ef.PadBunchProfiles, ef.WakePotential, ef.ElectricFieldScale],
         'native_sweep': {'harness': 'ef_replay', 'runs': ef.EF_RUNS + [['wake', 16, '1', 0, n_, 7] for n_ in (32, 33, 34, 50, 97, 128)]},
         'lemmas': [],
         'level': 'proof',
@@ -101,7 +101,7 @@ PROPERTIES = {
                  'bucket*spacing and zeros elsewhere; FFTW represented by its contract (uninterpreted DFT/IDFT of the buffer contents); unbounded in lengths, patterns, spacing',
         'assumptions': [A_IDEAL, A_LIB, DROPS, 'A-FFTW-R2C: r2c writes DFT(in)[0..n/2]', 'A-FFTW-C2R: c2r returns the Hermitian inverse transform of in[0..n/2] and may overwrite in[0..n/2) only',
                         'complex multiplication kept symbolic (same products in code and spec); the scale factor Ib*dt*c/(sigma_z*dE)/N is the constructor contract (C05)'],
-        'uncovered': ['the scale factor formula of the delegating constructor (claimed under C05 when the constructor is under contract)', 'padded length computed in main (C17 config slice)'],
+        'uncovered': ['buffer allocation and FFT plan binding in the ElectricField constructors (class invariant EF_valid is assumed by the methods)', 'padded length computed in main is proved under C17'],
         'explanation': 'functional posts with ghost indices on padBunchProfiles and wakePotential',
         'technique': TECH,
     },
@@ -195,14 +195,14 @@ PROPERTIES = {
         'technique': TECH,
     },
     'C05': {
-        'units': [mainloop.MainLoop, mainspec.MainConfig, sm.WakePotentialMapUpdate, sm.RFCalcKick, sm.DriftMapCtor, sm.FokkerPlanckCtor, ef.WakePotential, sm.UpdateSM, sm.KickMapApply],
+        'units': [mainloop.MainLoop, mainspec.MainConfig, sm.WakePotentialMapUpdate, ef.ElectricFieldScale, sm.RFCalcKick, sm.DriftMapCtor, sm.FokkerPlanckCtor, ef.WakePotential, sm.UpdateSM, sm.KickMapApply],
         'lemmas': [sm.lemmas_fp, sm.lemmas_c03],
         'level': 'other',
         'claim': 'the ingredients of the stationary (Haissinski) relation are proved on the code: within one step the wake potential is computed from the projection left by the previous step, then wake kick, RF kick, drift, '
                  'damping/diffusion, projection — in this order for every output cadence; the wake kick offsets are scale*IDFT(Z*DFT(profile)) read back per bunch; RF and drift laws; unit-variance diffusion moments; dt and revolution part. '
                  'The derivation from these facts to ln rho + q^2/2 - (1/dtheta) int W = const is in lemmas/C05.md and is not machine-checked',
         'assumptions': [A_IDEAL, A_LIB, DROPS, 'event contracts of the control skeleton abstract each callee by an uninterpreted function of the locations its verified contract reads'],
-        'uncovered': ['the ElectricField scale-factor constructor is not under contract; ElectricField class invariants are assumed at the call in WakePotentialMap::update', 'the equilibrium statement itself'],
+        'uncovered': ['ElectricField class invariants (buffer sizes, plans) are assumed at the call in WakePotentialMap::update; only the scale-factor initialisers of its constructors are under contract', 'the equilibrium statement itself'],
         'explanation': 'control skeleton of main + contracts of the force-law units',
         'technique': TECH,
     },
@@ -229,7 +229,7 @@ PROPERTIES = {
         'technique': TECH,
     },
     'C10': {
-        'units': [mainloop.MainLoop, ps.UpdateXProjection, ps.UpdateYProjection, ps.Integrate, ps.Variance, ef.WakePotential, ef.UpdateCSR],
+        'units': [mainloop.MainLoop, ps.UpdateXProjection, ps.UpdateYProjection, ps.Integrate, ps.Variance, ef.WakePotential, ef.UpdateCSR, ef.ElectricFieldScale],
         'lemmas': [],
         'level': 'other',
         'claim': 'partial: at every output event and at exit the CSR, wake-potential and particle datasets receive as many records as the time axis; the time value of the final record is simulationstep/steps; the derived quantities appended are the ones '
